@@ -369,7 +369,9 @@ bool vf_nondet_bool() { in_sync(); return next_input(1) != 0; }
 void vf_assume(bool c) {
   if (!c) {
     fflush(stdout);
-    _exit(77);
+    // inputs beyond the solver's trace default to 0 and may violate a later assumption: if a check
+    // has already failed by then, that failure is the outcome of the replay
+    _exit(g_check_failures ? 1 : 77);
   }
 }
 void vf_check(bool c, const char* label) {
